@@ -34,6 +34,7 @@ type Schedule struct {
 	Cfg     *Config `json:"cfg"`
 	Version string  `json:"stored_version"` // "", "current", "none", or an old version string
 	Steps   []Step  `json:"steps"`
+	Closed  bool    `json:"closed"` // the schedule ends with the fair closure (peer silent, chain advances, services heal, restart)
 }
 
 func (w *World) cfgEv() Ev {
@@ -92,7 +93,7 @@ func RunSchedule(w *World, s *Schedule) {
 	if w.Cfg.Retransmit {
 		time.Sleep(30 * time.Millisecond)
 	}
-	w.Emit("end", Ev{"steps": len(s.Steps)})
+	w.Emit("end", Ev{"steps": len(s.Steps), "closed": s.Closed})
 }
 
 func (w *World) resolveIncl(chain string, incl []string) []string {
